@@ -177,3 +177,358 @@ Proof.
            apply (Sh_run [] x A [w'] W3); auto. right. exists w'. auto.
 Qed.
 End Shape.
+
+(* ------------------------------------------------------------------------------------------------ *)
+(* frontiers as 0/1 words (1 = the set contains v) *)
+Definition wv (v : nat) (o : list (list nat)) : list bool := map (memn v) o.
+
+Lemma wv_app v a b : wv v (a ++ b) = wv v a ++ wv v b.
+Proof. apply map_app. Qed.
+
+Lemma zeros_ones_app a b :
+  zeros_ones (a ++ b) = (all_zero a && zeros_ones b) || (zeros_ones a && all_one b).
+Proof.
+  induction a as [|[|] a IH]; simpl.
+  - destruct (zeros_ones b) eqn:E; [reflexivity|]. destruct (all_one b) eqn:E2; [|reflexivity].
+    destruct b as [|[|] b]; simpl in *; try congruence.
+  - now rewrite all_one_app.
+  - exact IH.
+Qed.
+
+Lemma wv_all_zero v o : all_zero (wv v o) = true <-> Forall (fun s => ~ In v s) o.
+Proof.
+  unfold wv, all_zero. rewrite forallb_forall, Forall_forall. split.
+  - intros H s Hs Hv. specialize (H (memn v s) (in_map _ _ _ Hs)). apply memn_iff in Hv. rewrite Hv in H. discriminate.
+  - intros H b Hb. apply in_map_iff in Hb. destruct Hb as (s & <- & Hs). apply negb_true_iff.
+    destruct (memn v s) eqn:E; [|reflexivity]. apply memn_iff in E. destruct (H s Hs E).
+Qed.
+
+Lemma wv_all_one v o : all_one (wv v o) = true <-> Forall (fun s => In v s) o.
+Proof.
+  unfold wv, all_one. rewrite forallb_forall, Forall_forall. split.
+  - intros H s Hs. apply memn_iff. exact (H (memn v s) (in_map _ _ _ Hs)).
+  - intros H b Hb. apply in_map_iff in Hb. destruct Hb as (s & <- & Hs). now apply memn_iff, H.
+Qed.
+
+Lemma wv_contig v o : contig01 (wv v o) = true <-> Interval (fun s => In v s) o.
+Proof. unfold wv. apply (contig01_map (memn v) (fun s => In v s)). intros s. apply memn_iff. Qed.
+
+(* frontiers of pure trees *)
+Lemma Ord_PureE_word v c o : PureE v c -> Ord c o -> all_zero (wv v o) = true.
+Proof.
+  intros HE Ho. apply wv_all_zero. unfold PureE in HE. eapply Permutation_Forall; [apply Ord_perm; exact Ho|exact HE].
+Qed.
+Lemma Ord_PureF_word v c o : PureF v c -> Ord c o -> all_one (wv v o) = true.
+Proof.
+  intros HE Ho. apply wv_all_one. unfold PureF in HE. eapply Permutation_Forall; [apply Ord_perm; exact Ho|exact HE].
+Qed.
+Lemma Ord_nonempty c o : proper c = true -> Ord c o -> o <> [].
+Proof.
+  intros Hp Ho E. subst. apply Ord_perm in Ho. apply Permutation_sym, Permutation_nil in Ho. now apply proper_leaves in Hp.
+Qed.
+Lemma Ord_contains_word v c o : contains v c = true -> Ord c o -> all_zero (wv v o) = false.
+Proof.
+  intros Hc Ho. destruct (all_zero (wv v o)) eqn:E; [|reflexivity]. apply wv_all_zero in E.
+  assert (HE : PureE v c) by (unfold PureE; eapply Permutation_Forall; [apply Permutation_sym, Ord_perm; exact Ho|exact E]).
+  apply contains_false_iff in HE. congruence.
+Qed.
+
+Lemma OrdL_PureE_word v l o : Forall (PureE v) l -> OrdL l o -> all_zero (wv v o) = true.
+Proof. intros H Ho. apply wv_all_zero. exact (OrdL_Forall _ l o H Ho). Qed.
+
+Lemma OrdL_nonempty l o : l <> [] -> Forall (fun c => proper c = true) l -> OrdL l o -> o <> [].
+Proof.
+  intros Hne Hp Ho. destruct l as [|c r]; [congruence|]. inversion Hp as [|? ? H2 _]; subst.
+  apply OrdL_cons in Ho. destruct Ho as (o1 & o2 & -> & H1 & _). intros E. apply app_eq_nil in E. destruct E as [E _].
+  subst. exact (Ord_nonempty c [] H2 H1 eq_refl).
+Qed.
+
+(* words: a zero block after a one excludes 0*1*, a zero block before a one excludes 1*0* *)
+Lemma zo_tail_zero a b : zeros_ones (a ++ b) = true -> all_zero a = false -> all_zero b = true -> b = [].
+Proof.
+  rewrite zeros_ones_app. intros H Ha Hb. rewrite Ha in H. simpl in H. apply andb_true_iff in H. destruct H as [_ H].
+  destruct b as [|[|] b]; simpl in *; congruence.
+Qed.
+Lemma zo_head a b : zeros_ones (a ++ b) = true -> all_zero b = true -> zeros_ones a = true.
+Proof.
+  rewrite zeros_ones_app. intros H Hb. apply orb_true_iff in H. destruct H as [H|H]; apply andb_true_iff in H; destruct H as [H1 H2]; auto.
+  now apply all_zero_zeros_ones.
+Qed.
+Lemma zo_drop_zero a b : zeros_ones (a ++ b) = true -> all_zero a = true -> zeros_ones b = true.
+Proof.
+  rewrite zeros_ones_app. intros H Ha. rewrite Ha in H. simpl in H. apply orb_true_iff in H. destruct H as [H|H]; auto.
+  apply andb_true_iff in H. destruct H as [_ H]. destruct b as [|[|] b]; simpl in *; auto. discriminate.
+Qed.
+Lemma oz_head_zero a b : ones_zeros (a ++ b) = true -> all_zero a = true -> all_zero b = false -> a = [].
+Proof.
+  rewrite ones_zeros_app. intros H Ha Hb. rewrite Hb, andb_false_r, orb_false_r in H.
+  apply andb_true_iff in H. destruct H as [H _]. destruct a as [|[|] a]; simpl in *; congruence.
+Qed.
+Lemma oz_tail a b : ones_zeros (a ++ b) = true -> all_zero a = true -> ones_zeros b = true.
+Proof.
+  rewrite ones_zeros_app. intros H Ha. apply orb_true_iff in H. destruct H as [H|H]; apply andb_true_iff in H; destruct H as [H1 H2]; auto.
+  now apply all_zero_ones_zeros.
+Qed.
+Lemma oz_drop_zero a b : ones_zeros (a ++ b) = true -> all_zero b = true -> ones_zeros a = true.
+Proof.
+  rewrite ones_zeros_app. intros H Hb. apply orb_true_iff in H. destruct H as [H|H]; apply andb_true_iff in H; destruct H as [H1 H2]; auto.
+  now apply all_one_ones_zeros.
+Qed.
+
+(* PQ.reverse loses no frontier *)
+Lemma Ord_reverse_c t : forall o, Ord t o -> Ord (reverse t) o.
+Proof.
+  induction t as [s|k cs IH] using pq_ind'; intros o Ho; [exact Ho|]. simpl reverse.
+  assert (HR : Forall2 Ref cs (map reverse cs)) by now apply Forall2_map_same.
+  apply (Ref_node k cs (map reverse cs) HR) in Ho. destruct k.
+  - apply (Ord_P_perm (map reverse cs)); [apply Permutation_rev|exact Ho].
+  - apply Ord_Q in Ho. apply Ord_Q. rewrite rev_involutive. tauto.
+Qed.
+
+(* ------------------------------------------------------------------------------------------------ *)
+(* the converse of simplify_spec *)
+Lemma OrdL_empty_inv l : Forall (fun c => proper c = true) l -> OrdL l [] -> l = [].
+Proof.
+  intros Hp Ho. destruct l as [|c r]; [reflexivity|]. exfalso. apply (OrdL_nonempty (c :: r) []); auto. discriminate.
+Qed.
+
+Lemma P_frontier_split v es c es2 o :
+  Forall (PureE v) (es ++ es2) -> Forall (fun c => proper c = true) (es ++ c :: es2) ->
+  Ord (Node KP (es ++ c :: es2)) o ->
+  exists l1 l2 o1 oc o2, Permutation (es ++ es2) (l1 ++ l2) /\ o = o1 ++ oc ++ o2 /\
+                         OrdL l1 o1 /\ Ord c oc /\ OrdL l2 o2.
+Proof.
+  intros HE Hp Ho. apply Ord_P in Ho. destruct Ho as (l & HP & HL).
+  assert (Hin : In c l) by (eapply Permutation_in; [exact HP|]; apply in_or_app; right; now left).
+  apply in_split in Hin. destruct Hin as (l1 & l2 & ->).
+  apply Permutation_app_inv in HP.
+  apply OrdL_app in HL. destruct HL as (o1 & o2 & -> & Ho1 & Ho2).
+  apply OrdL_cons in Ho2. destruct Ho2 as (o3 & o4 & -> & Ho3 & Ho4).
+  exists l1, l2, o1, o3, o4. auto.
+Qed.
+
+Lemma P_right v es c es2 o :
+  Forall (PureE v) (es ++ es2) -> Forall (fun c => proper c = true) (es ++ c :: es2) -> contains v c = true ->
+  Ord (Node KP (es ++ c :: es2)) o -> zeros_ones (wv v o) = true ->
+  exists o1 oc, o = o1 ++ oc /\ Ord (Node KP (es ++ es2)) o1 /\ Ord c oc /\ zeros_ones (wv v oc) = true.
+Proof.
+  intros HE Hp Hc Ho Hz. destruct (P_frontier_split v es c es2 o HE Hp Ho) as (l1 & l2 & o1 & oc & o2 & HP & -> & H1 & Hoc & H2).
+  assert (HEl : Forall (PureE v) (l1 ++ l2)) by (eapply Permutation_Forall; eassumption).
+  assert (Hpl : Forall (fun c => proper c = true) (l1 ++ l2)).
+  { eapply Permutation_Forall; [exact HP|]. apply Forall_app in Hp. destruct Hp as [Ha Hb]. inversion Hb; subst.
+    apply Forall_app. auto. }
+  apply Forall_app in HEl. destruct HEl as [HE1 HE2]. apply Forall_app in Hpl. destruct Hpl as [Hp1 Hp2].
+  pose proof (OrdL_PureE_word v l1 o1 HE1 H1) as Z1. pose proof (OrdL_PureE_word v l2 o2 HE2 H2) as Z2.
+  pose proof (Ord_contains_word v c oc Hc Hoc) as Zc.
+  rewrite !wv_app in Hz. apply zo_drop_zero in Hz; [|exact Z1].
+  assert (Eo2 : wv v o2 = []) by (apply (zo_tail_zero (wv v oc)); auto).
+  assert (o2 = []) by (destruct o2; [reflexivity|discriminate]). subst o2.
+  apply OrdL_empty_inv in H2; [|exact Hp2]. subst l2. rewrite app_nil_r in *.
+  exists o1, oc. split; [now rewrite ?app_nil_r|]. split; [apply Ord_P; exists l1; auto|]. split; [exact Hoc|].
+  simpl in Hz. now rewrite ?app_nil_r in Hz.
+Qed.
+
+Lemma P_left v es c es2 o :
+  Forall (PureE v) (es ++ es2) -> Forall (fun c => proper c = true) (es ++ c :: es2) -> contains v c = true ->
+  Ord (Node KP (es ++ c :: es2)) o -> ones_zeros (wv v o) = true ->
+  exists oc o2, o = oc ++ o2 /\ Ord (Node KP (es ++ es2)) o2 /\ Ord c oc /\ ones_zeros (wv v oc) = true.
+Proof.
+  intros HE Hp Hc Ho Hz. destruct (P_frontier_split v es c es2 o HE Hp Ho) as (l1 & l2 & o1 & oc & o2 & HP & -> & H1 & Hoc & H2).
+  assert (HEl : Forall (PureE v) (l1 ++ l2)) by (eapply Permutation_Forall; eassumption).
+  assert (Hpl : Forall (fun c => proper c = true) (l1 ++ l2)).
+  { eapply Permutation_Forall; [exact HP|]. apply Forall_app in Hp. destruct Hp as [Ha Hb]. inversion Hb; subst.
+    apply Forall_app. auto. }
+  apply Forall_app in HEl. destruct HEl as [HE1 HE2]. apply Forall_app in Hpl. destruct Hpl as [Hp1 Hp2].
+  pose proof (OrdL_PureE_word v l1 o1 HE1 H1) as Z1. pose proof (OrdL_PureE_word v l2 o2 HE2 H2) as Z2.
+  pose proof (Ord_contains_word v c oc Hc Hoc) as Zc.
+  rewrite !wv_app in Hz.
+  assert (Eo1 : wv v o1 = []).
+  { apply (oz_head_zero _ (wv v oc ++ wv v o2)); auto. rewrite all_zero_app, Zc. reflexivity. }
+  assert (o1 = []) by (destruct o1; [reflexivity|discriminate]). subst o1.
+  apply OrdL_empty_inv in H1; [|exact Hp1]. subst l1. simpl in *.
+  exists oc, o2. split; [reflexivity|]. split; [apply Ord_P; exists l2; auto|]. split; [exact Hoc|].
+  now apply oz_drop_zero in Hz.
+Qed.
+
+Definition sideA (la : bool) (v : nat) (o : list (list nat)) : bool :=
+  if la then ones_zeros (wv v o) else zeros_ones (wv v o).
+Definition sideO (la : bool) (v : nat) (o : list (list nat)) : bool :=
+  if la then zeros_ones (wv v o) else ones_zeros (wv v o).
+
+Lemma not_partial_contains v c : contains v c = false -> is_partial_child v c = false.
+Proof. intros H. destruct c; [reflexivity|]. unfold is_partial_child. now rewrite H. Qed.
+
+Lemma partial_contains v c : is_partial_child v c = true -> contains v c = true.
+Proof. destruct (contains v c) eqn:E; [reflexivity|]. intros H. rewrite (not_partial_contains v c E) in H. discriminate. Qed.
+
+Lemma contains_node_E v k es c es2 :
+  Forall (PureE v) (es ++ es2) -> contains v (Node k (es ++ c :: es2)) = true -> contains v c = true.
+Proof.
+  intros HE H. simpl in H. apply existsb_exists in H. destruct H as (x & Hx & Hv).
+  apply in_app_or in Hx. rewrite Forall_forall in HE.
+  destruct Hx as [Hx|[<-|Hx]]; auto; exfalso;
+    assert (Hf : contains v x = false) by (apply contains_false_iff, HE, in_or_app; auto); congruence.
+Qed.
+
+Theorem simplify_complete la v T :
+  Al la v T -> proper T = true -> is_partial_child v T = true ->
+  forall o, Ord T o ->
+    (sideA la v o = true -> OrdL (simplify v (negb la) T) o) /\
+    (sideO la v o = true -> OrdL (rev (simplify v (negb la) T)) o).
+Proof.
+  induction 1 as [es c es2 HE HF|es c es2 HE HA IH|es fs HE HF|es x HE HA IH]; intros Hp Hpart o Ho.
+  - (* P with a full child *)
+    apply proper_node_iff in Hp. destruct Hp as [Hlen Hp]. destruct (Forall_proper_app_inv _ _ _ Hp) as [HpE Hpc].
+    assert (Hne : es ++ es2 <> []).
+    { intros E. rewrite app_length in Hlen. simpl in Hlen. apply (f_equal (@length pq)) in E. rewrite app_length in E. simpl in E. lia. }
+    pose proof (PureF_contains v c Hpc HF) as Hc.
+    rewrite simplify_P_compute by assumption. rewrite Hc, (PureF_not_partial v c Hpc HF). cbv zeta.
+    destruct la; simpl negb; cbv iota; unfold sideA, sideO; split; intros Hs.
+    + destruct (P_left v es c es2 o HE Hp Hc Ho Hs) as (oc & o2 & -> & H2 & Hoc & _).
+      apply OrdL_cons. exists oc, o2. repeat split; auto. apply OrdL_one. now apply Ord_new_node.
+    + destruct (P_right v es c es2 o HE Hp Hc Ho Hs) as (o1 & oc & -> & H1 & Hoc & _).
+      simpl rev. apply OrdL_cons. exists o1, oc. repeat split; auto; [now apply Ord_new_node|now apply OrdL_one].
+    + destruct (P_right v es c es2 o HE Hp Hc Ho Hs) as (o1 & oc & -> & H1 & Hoc & _).
+      apply OrdL_cons. exists o1, oc. repeat split; auto; [now apply Ord_new_node|now apply OrdL_one].
+    + destruct (P_left v es c es2 o HE Hp Hc Ho Hs) as (oc & o2 & -> & H2 & Hoc & _).
+      simpl rev. apply OrdL_cons. exists oc, o2. repeat split; auto. apply OrdL_one. now apply Ord_new_node.
+  - (* P with an aligned child *)
+    apply proper_node_iff in Hp. destruct Hp as [Hlen Hp]. destruct (Forall_proper_app_inv _ _ _ Hp) as [HpE Hpc].
+    assert (Hne : es ++ es2 <> []).
+    { intros E. rewrite app_length in Hlen. simpl in Hlen. apply (f_equal (@length pq)) in E. rewrite app_length in E. simpl in E. lia. }
+    pose proof (contains_node_E v KP es c es2 HE (partial_contains _ _ Hpart)) as Hc.
+    rewrite simplify_P_compute by assumption. rewrite Hc. cbv zeta.
+    set (mid := if is_partial_child v c then simplify v (negb la) c else [c]).
+    assert (Hmid : forall oc, Ord c oc -> (sideA la v oc = true -> OrdL mid oc) /\ (sideO la v oc = true -> OrdL (rev mid) oc)).
+    { intros oc Hoc. unfold mid. destruct (is_partial_child v c) eqn:Epc; [now apply IH|].
+      split; intros _; simpl; now apply OrdL_one. }
+    destruct la; simpl negb; cbv iota; unfold sideA, sideO in *; split; intros Hs.
+    + destruct (P_left v es c es2 o HE Hp Hc Ho Hs) as (oc & o2 & -> & H2 & Hoc & Hs').
+      apply OrdL_app. exists oc, o2. repeat split; auto; [now apply (Hmid oc Hoc)|]. apply OrdL_one. now apply Ord_new_node.
+    + destruct (P_right v es c es2 o HE Hp Hc Ho Hs) as (o1 & oc & -> & H1 & Hoc & Hs').
+      rewrite rev_app_distr. simpl rev. apply OrdL_cons. exists o1, oc. repeat split; auto; [now apply Ord_new_node|].
+      now apply (Hmid oc Hoc).
+    + destruct (P_right v es c es2 o HE Hp Hc Ho Hs) as (o1 & oc & -> & H1 & Hoc & Hs').
+      apply OrdL_cons. exists o1, oc. repeat split; auto; [now apply Ord_new_node|now apply (Hmid oc Hoc)].
+    + destruct (P_left v es c es2 o HE Hp Hc Ho Hs) as (oc & o2 & -> & H2 & Hoc & Hs').
+      simpl rev. apply OrdL_app. exists oc, o2. repeat split; auto; [now apply (Hmid oc Hoc)|].
+      apply OrdL_one. now apply Ord_new_node.
+  - (* Q, all children pure: es and fs are both non-empty because the node is classified as partial *)
+    apply proper_node_iff in Hp. destruct Hp as [Hlen Hp]. rewrite simplify_Q_eq.
+    set (cs := if la then fs ++ es else es ++ fs) in *.
+    assert (HpE : Forall (fun c => proper c = true) es /\ Forall (fun c => proper c = true) fs).
+    { unfold cs in Hp. destruct la; apply Forall_app in Hp; tauto. }
+    destruct HpE as [HpE HpF].
+    assert (Hall : Forall (fun c => is_partial_child v c = false) cs).
+    { assert (H1 : Forall (fun c => is_partial_child v c = false) es)
+        by (eapply Forall_impl; [|exact HE]; intros e; apply PureE_not_partial).
+      assert (H2 : Forall (fun c => is_partial_child v c = false) fs).
+      { apply Forall_forall. intros f Hf. rewrite Forall_forall in HpF, HF. apply PureF_not_partial; auto. }
+      unfold cs. destruct la; apply Forall_app; auto. }
+    rewrite flat_map_id_if by exact Hall.
+    (* both kinds of children exist *)
+    unfold is_partial_child in Hpart. apply andb_true_iff in Hpart. destruct Hpart as [Hcont Hdir].
+    assert (Hes : es <> []).
+    { intros ->. apply existsb_exists in Hdir. destruct Hdir as (x & Hx & Hv). apply negb_true_iff in Hv.
+      assert (Hxf : In x fs) by (unfold cs in Hx; destruct la; [now rewrite app_nil_r in Hx|exact Hx]).
+      rewrite Forall_forall in HpF, HF. rewrite (PureF_contains v x) in Hv; auto. discriminate. }
+    assert (Hfs : fs <> []).
+    { intros ->. simpl in Hcont. apply existsb_exists in Hcont. destruct Hcont as (x & Hx & Hv).
+      assert (Hxe : In x es) by (unfold cs in Hx; destruct la; [exact Hx|now rewrite app_nil_r in Hx]).
+      rewrite Forall_forall in HE. assert (contains v x = false) by (apply contains_false_iff; auto). congruence. }
+    assert (WE : forall oe, OrdL es oe -> all_zero (wv v oe) = true /\ oe <> []).
+    { intros oe H. split; [now apply (OrdL_PureE_word v es)|now apply (OrdL_nonempty es)]. }
+    assert (WE' : forall oe, OrdL (rev es) oe -> all_zero (wv v oe) = true /\ oe <> []).
+    { intros oe H. split; [apply (OrdL_PureE_word v (rev es)); auto; now apply Forall_rev|].
+      apply (OrdL_nonempty (rev es)); auto; [|now apply Forall_rev].
+      intros E. apply (f_equal (@rev pq)) in E. rewrite rev_involutive in E. simpl in E. congruence. }
+    assert (WF : forall l of_, Permutation fs l \/ l = rev fs -> OrdL l of_ -> all_one (wv v of_) = true /\ of_ <> []).
+    { intros l of_ Hl H. assert (HFl : Forall (PureF v) l /\ Forall (fun c => proper c = true) l /\ l <> []).
+      { destruct Hl as [Hl| ->].
+        - repeat split; try (eapply Permutation_Forall; eassumption). intros ->. apply Permutation_sym, Permutation_nil in Hl. congruence.
+        - repeat split; try now apply Forall_rev. intros E. apply (f_equal (@rev pq)) in E. rewrite rev_involutive in E. simpl in E. congruence. }
+      destruct HFl as (H1 & H2 & H3). split; [|now apply (OrdL_nonempty l)].
+      apply wv_all_one. exact (OrdL_Forall _ l of_ H1 H). }
+    assert (Hone_zero : forall a b, all_one a = true -> a <> [] -> all_zero b = true -> b <> [] ->
+                        zeros_ones (a ++ b) = false /\ ones_zeros (b ++ a) = false).
+    { intros a b Ha Hane Hb Hbne. split.
+      - rewrite zeros_ones_app. destruct a as [|[|] a]; simpl in *; try congruence.
+        destruct b as [|[|] b]; simpl in *; try congruence. now rewrite andb_false_r.
+      - rewrite ones_zeros_app. destruct b as [|[|] b]; simpl in *; try congruence.
+        destruct a as [|[|] a]; simpl in *; try congruence. now rewrite andb_false_r. }
+    apply Ord_Q in Ho. unfold sideA, sideO, cs in *.
+    destruct la; split; intros Hs; destruct Ho as [Ho|Ho]; auto; exfalso.
+    + (* la, aligned side 1*0*, reversed reading = zeros first *)
+      rewrite rev_app_distr in Ho. apply OrdL_app in Ho. destruct Ho as (o1 & o2 & -> & H1 & H2).
+      destruct (WE' o1 H1) as [Z1 N1]. destruct (WF (rev fs) o2 (or_intror eq_refl) H2) as [Z2 N2].
+      rewrite wv_app in Hs. assert (Hn1 : wv v o1 <> []) by (destruct o1; [congruence|discriminate]).
+      assert (Hn2 : wv v o2 <> []) by (destruct o2; [congruence|discriminate]).
+      destruct (Hone_zero _ _ Z2 Hn2 Z1 Hn1) as [_ Hc]. congruence.
+    + apply OrdL_app in Ho. destruct Ho as (o1 & o2 & -> & H1 & H2).
+      destruct (WF fs o1 (or_introl (Permutation_refl _)) H1) as [Z1 N1]. destruct (WE o2 H2) as [Z2 N2].
+      rewrite wv_app in Hs. assert (Hn1 : wv v o1 <> []) by (destruct o1; [congruence|discriminate]).
+      assert (Hn2 : wv v o2 <> []) by (destruct o2; [congruence|discriminate]).
+      destruct (Hone_zero _ _ Z1 Hn1 Z2 Hn2) as [Hc _]. congruence.
+    + rewrite rev_app_distr in Ho. apply OrdL_app in Ho. destruct Ho as (o1 & o2 & -> & H1 & H2).
+      destruct (WF (rev fs) o1 (or_intror eq_refl) H1) as [Z1 N1]. destruct (WE' o2 H2) as [Z2 N2].
+      rewrite wv_app in Hs. assert (Hn1 : wv v o1 <> []) by (destruct o1; [congruence|discriminate]).
+      assert (Hn2 : wv v o2 <> []) by (destruct o2; [congruence|discriminate]).
+      destruct (Hone_zero _ _ Z1 Hn1 Z2 Hn2) as [Hc _]. congruence.
+    + apply OrdL_app in Ho. destruct Ho as (o1 & o2 & -> & H1 & H2).
+      destruct (WE o1 H1) as [Z1 N1]. destruct (WF fs o2 (or_introl (Permutation_refl _)) H2) as [Z2 N2].
+      rewrite wv_app in Hs. assert (Hn1 : wv v o1 <> []) by (destruct o1; [congruence|discriminate]).
+      assert (Hn2 : wv v o2 <> []) by (destruct o2; [congruence|discriminate]).
+      destruct (Hone_zero _ _ Z2 Hn2 Z1 Hn1) as [_ Hc]. congruence.
+  - (* Q with one aligned child at the end *)
+    apply proper_node_iff in Hp. destruct Hp as [Hlen Hp]. rewrite simplify_Q_eq.
+    assert (HpE : Forall (fun c => proper c = true) es /\ proper x = true).
+    { destruct la; [inversion Hp; auto|apply Forall_app in Hp; destruct Hp as [H1 H2]; inversion H2; auto]. }
+    destruct HpE as [HpE Hpx].
+    assert (Hes : es <> []) by (intros ->; destruct la; simpl in Hlen; lia).
+    assert (Hcx : contains v x = true).
+    { apply partial_contains in Hpart. destruct la.
+      - apply (contains_node_E v KQ [] x es); [exact HE|exact Hpart].
+      - apply (contains_node_E v KQ es x []); [now rewrite app_nil_r|exact Hpart]. }
+    assert (Hesid : forall r, flat_map (fun c => if is_partial_child v c then simplify v r c else [c]) es = es).
+    { intros r. apply flat_map_id_if. eapply Forall_impl; [|exact HE]. intros e. apply PureE_not_partial. }
+    set (mid := if is_partial_child v x then simplify v (negb la) x else [x]).
+    assert (Hmid : forall ox, Ord x ox -> (sideA la v ox = true -> OrdL mid ox) /\ (sideO la v ox = true -> OrdL (rev mid) ox)).
+    { intros ox Hox. unfold mid. destruct (is_partial_child v x) eqn:Epx; [now apply IH|].
+      split; intros _; simpl; now apply OrdL_one. }
+    assert (WE : forall l oe, l = es \/ l = rev es -> OrdL l oe -> all_zero (wv v oe) = true /\ wv v oe <> []).
+    { intros l oe Hl H. assert (HH : Forall (PureE v) l /\ Forall (fun c => proper c = true) l /\ l <> []).
+      { destruct Hl as [->| ->]; [auto|]. repeat split; try now apply Forall_rev.
+        intros E. apply (f_equal (@rev pq)) in E. rewrite rev_involutive in E. simpl in E. congruence. }
+      destruct HH as (H1 & H2 & H3). split; [now apply (OrdL_PureE_word v l)|].
+      pose proof (OrdL_nonempty l oe H3 H2 H). destruct oe; [congruence|discriminate]. }
+    apply Ord_Q in Ho. unfold sideA, sideO in *. destruct la; simpl negb in *.
+    + (* left aligned: x :: es *)
+      change (flat_map (fun c => if is_partial_child v c then simplify v false c else [c]) (x :: es))
+        with (mid ++ flat_map (fun c => if is_partial_child v c then simplify v false c else [c]) es).
+      rewrite Hesid. split; intros Hs; destruct Ho as [Ho|Ho].
+      * apply OrdL_cons in Ho. destruct Ho as (ox & oe & -> & Hox & Hoe). apply OrdL_app. exists ox, oe.
+        repeat split; auto. apply (Hmid ox Hox). rewrite wv_app in Hs. destruct (WE es oe (or_introl eq_refl) Hoe) as [Z _].
+        now apply oz_drop_zero in Hs.
+      * exfalso. simpl rev in Ho. apply OrdL_app in Ho. destruct Ho as (oe & ox & -> & Hoe & Hox). apply OrdL_one in Hox.
+        destruct (WE (rev es) oe (or_intror eq_refl) Hoe) as [Z N]. rewrite wv_app in Hs.
+        apply oz_head_zero in Hs; auto. now apply (Ord_contains_word v x).
+      * exfalso. apply OrdL_cons in Ho. destruct Ho as (ox & oe & -> & Hox & Hoe).
+        destruct (WE es oe (or_introl eq_refl) Hoe) as [Z N]. rewrite wv_app in Hs.
+        apply zo_tail_zero in Hs; auto. now apply (Ord_contains_word v x).
+      * simpl rev in Ho. apply OrdL_app in Ho. destruct Ho as (oe & ox & -> & Hoe & Hox). apply OrdL_one in Hox.
+        rewrite rev_app_distr. apply OrdL_app. exists oe, ox. repeat split; auto. apply (Hmid ox Hox).
+        destruct (WE (rev es) oe (or_intror eq_refl) Hoe) as [Z _]. rewrite wv_app in Hs. now apply zo_drop_zero in Hs.
+    + rewrite flat_map_app, Hesid. simpl flat_map. rewrite app_nil_r. fold mid. split; intros Hs; destruct Ho as [Ho|Ho].
+      * apply OrdL_app in Ho. destruct Ho as (oe & ox & -> & Hoe & Hox). apply OrdL_one in Hox.
+        apply OrdL_app. exists oe, ox. repeat split; auto. apply (Hmid ox Hox).
+        destruct (WE es oe (or_introl eq_refl) Hoe) as [Z _]. rewrite wv_app in Hs. now apply zo_drop_zero in Hs.
+      * exfalso. rewrite rev_app_distr in Ho. simpl in Ho. apply OrdL_cons in Ho. destruct Ho as (ox & oe & -> & Hox & Hoe).
+        destruct (WE (rev es) oe (or_intror eq_refl) Hoe) as [Z N]. rewrite wv_app in Hs.
+        apply zo_tail_zero in Hs; auto. now apply (Ord_contains_word v x).
+      * exfalso. apply OrdL_app in Ho. destruct Ho as (oe & ox & -> & Hoe & Hox). apply OrdL_one in Hox.
+        destruct (WE es oe (or_introl eq_refl) Hoe) as [Z N]. rewrite wv_app in Hs.
+        apply oz_head_zero in Hs; auto. now apply (Ord_contains_word v x).
+      * rewrite rev_app_distr in Ho. simpl in Ho. apply OrdL_cons in Ho. destruct Ho as (ox & oe & -> & Hox & Hoe).
+        rewrite rev_app_distr. apply OrdL_app. exists ox, oe. repeat split; auto. apply (Hmid ox Hox).
+        destruct (WE (rev es) oe (or_intror eq_refl) Hoe) as [Z _]. rewrite wv_app in Hs. now apply oz_drop_zero in Hs.
+Qed.
